@@ -6,7 +6,8 @@
 From Coq Require Import List Arith Bool ZArith Ring_theory.
 Import ListNotations.
 Require Import Base.C01_Sums Model.C01_Assembly Proofs.C01_AssemblyProofs Model.C19_Blocks Proofs.C19_BlocksProofs.
-Require Import Gen.C01Gen Dyn.C01Tie Gen.C19Gen Dyn.C19Tie Dyn.C19Bmat.
+Require Import Model.C19_Composite Proofs.C19_CompositeProofs.
+Require Import Gen.C01Gen Dyn.C01Tie Gen.C19Gen Gen.C19Comp Dyn.C19Tie Dyn.C19Bmat Dyn.C19CompTie.
 
 (* ---------- ElementVector: local index i of the vector element <-> (scalar basis function ind, component n) ---------- *)
 Theorem C19_vector_decode : forall dim i, 0 < dim ->
@@ -21,6 +22,32 @@ Proof. intros dim Nb Hd. split; [intros; now apply gen_vector_encode_decode | in
 (* ---------- skfem.utils.bmat: mat.blocks are the split points of the block columns ---------- *)
 Theorem C19_bmat_blocks : forall widths, bmat_domain widths -> gen_bmat_blocks widths = prefix_sums widths.
 Proof. exact gen_bmat_blocks_spec. Qed.
+
+
+(* ---------- ElementComposite._deduce_bfun: for EVERY list of component layouts (nodal, edge, facet, interior counts per
+   entity) and every reference cell (numbers of local entities), the local basis function sitting at kind K, local
+   entity itr, slot o_{n,K} + r of the summed layout (= row order of Dofs) is basis function (K, itr, r) of component n.
+   Together with C19_composite_decode_covers this is a bijection  i <-> (component, local index). ---------- *)
+Theorem C19_composite_decode : forall ref ls n K itr r,
+  n < length ls -> K < 4 -> itr < kcount ref K -> r < lay ls n K ->
+  gen_deduce_bfun ref ls (whole_index ref ls n K itr r) = (n, comp_index ref ls n K itr r).
+Proof. exact gen_deduce_bfun_spec. Qed.
+
+(* ---------- Dofs row order vs split_indices: the global DOF of the composite / vector element in that row, on any cell,
+   is split_indices[n][ the component's own global DOF of its row (K, itr, r) ] — every topology, numbering, layout ---------- *)
+Theorem C19_split_indices_composite : forall tp ls n K itr r e,
+  n < length ls -> K < 4 -> itr < length (conn tp K) -> r < lay ls n K ->
+  e < length (nth itr (conn tp K) []) -> nth e (nth itr (conn tp K) []) 0 < G tp K ->
+  nth (nth e (nth (row_index tp (lay ls n) K itr r) (gen_element_dofs tp (lay ls n)) []) 0) (gen_composite_split tp ls n) 0
+  = nth e (nth (row_index tp (D_of ls) K itr (o_of ls n K + r)) (gen_element_dofs tp (D_of ls)) []) 0.
+Proof. exact gen_split_compat_composite. Qed.
+
+Theorem C19_split_indices_vector : forall tp d dim n K itr r e,
+  n < dim -> K < 4 -> itr < length (conn tp K) -> r < d K ->
+  e < length (nth itr (conn tp K) []) -> nth e (nth itr (conn tp K) []) 0 < G tp K ->
+  nth (nth e (nth (row_index tp d K itr r) (gen_element_dofs tp d) []) 0) (gen_vector_split tp d dim n) 0
+  = nth e (nth (row_index tp (fun K' => dim * d K') K itr (n + r * dim)) (gen_element_dofs tp (fun K' => dim * d K')) []) 0.
+Proof. exact gen_split_compat_vector. Qed.
 
 Section C19.
   Variable R : Type.
@@ -69,16 +96,62 @@ Section C19.
     c_shape c = [n; n] -> length x = n -> gen_to_dense2 R rO radd c = Some A -> gen_coo_dot R rO radd rmul c x [] = Some z ->
     z = matvec R rO radd rmul A x.
   Proof. exact (gen_coo_dot_spec R rO rI radd rmul rsub ropp Rth). Qed.
+
+  (* ---------- interp_whole = stack (interp (split n)): every linear functional g of the interpolated composite field that
+     reads only component n (g (inj n' x) = [n = n'] h x) equals h of the component's interpolant of x[split_indices[n]] ---------- *)
+  Variables VV VC : Type.
+  Variables (vadd : VV -> VV -> VV) (vscale : R -> VV -> VV) (vaddC : VC -> VC -> VC) (vscaleC : R -> VC -> VC).
+  Variable inj : nat -> VV -> VC.
+
+  Theorem C19_interp_split_composite : forall (tp : topo) (ref : layout) (ls : list layout) (C : C01_Assembly.basis R VC)
+      (b : nat -> C01_Assembly.basis R VV) (n : nat) (g : VC -> R) (h : VV -> R) (w : nat -> R) e q,
+    (forall K, K < 4 -> kcount ref K = length (conn tp K)) ->
+    (forall K itr e, K < 4 -> itr < length (conn tp K) -> e < ncells tp ->
+       e < length (nth itr (conn tp K) []) /\ nth e (nth itr (conn tp K) []) 0 < G tp K) ->
+    bedofs C = gen_element_dofs tp (D_of ls) /\ bNbfun C = base_of ref (D_of ls) 4 ->
+    (forall n, n < length ls -> bedofs (b n) = gen_element_dofs tp (lay ls n) /\ bNbfun (b n) = base_of ref (lay ls n) 4) ->
+    (forall i e q, i < bNbfun C ->
+       bB C i e q = inj (fst (gen_deduce_bfun ref ls i)) (bB (b (fst (gen_deduce_bfun ref ls i))) (snd (gen_deduce_bfun ref ls i)) e q)) ->
+    n < length ls -> e < ncells tp ->
+    (forall x y, g (vaddC x y) = radd (g x) (g y)) -> (forall s x, g (vscaleC s x) = rmul s (g x)) ->
+    (forall x y, h (vadd x y) = radd (h x) (h y)) -> (forall s x, h (vscale s x) = rmul s (h x)) ->
+    (forall n' x, g (inj n' x) = if Nat.eqb n n' then h x else rO) ->
+    g (interp R rO VC vaddC vscaleC C w e q)
+    = h (interp R rO VV vadd vscale (b n) (fun k => w (nth k (gen_composite_split tp ls n) 0)) e q).
+  Proof. exact (gen_composite_interp_split R rO rI radd rmul rsub ropp Rth VV VC vadd vscale vaddC vscaleC inj). Qed.
+
+  Theorem C19_interp_split_vector : forall (tp : topo) (ref : layout) (d : nat -> nat) (dim : nat) (Vb : C01_Assembly.basis R VC)
+      (sb : C01_Assembly.basis R VV) (n : nat) (g : VC -> R) (h : VV -> R) (w : nat -> R) e q,
+    0 < dim ->
+    (forall K, K < 4 -> kcount ref K = length (conn tp K)) ->
+    (forall K itr e, K < 4 -> itr < length (conn tp K) -> e < ncells tp ->
+       e < length (nth itr (conn tp K) []) /\ nth e (nth itr (conn tp K) []) 0 < G tp K) ->
+    bedofs Vb = gen_element_dofs tp (fun K => dim * d K) /\ bNbfun Vb = base_of ref d 4 * dim ->
+    bedofs sb = gen_element_dofs tp d /\ bNbfun sb = base_of ref d 4 ->
+    (forall i e q, i < bNbfun Vb ->
+       bB Vb i e q = inj (snd (gen_vector_decode dim i)) (bB sb (fst (gen_vector_decode dim i)) e q)) ->
+    n < dim -> e < ncells tp ->
+    (forall x y, g (vaddC x y) = radd (g x) (g y)) -> (forall s x, g (vscaleC s x) = rmul s (g x)) ->
+    (forall x y, h (vadd x y) = radd (h x) (h y)) -> (forall s x, h (vscale s x) = rmul s (h x)) ->
+    (forall n' x, g (inj n' x) = if Nat.eqb n n' then h x else rO) ->
+    g (interp R rO VC vaddC vscaleC Vb w e q)
+    = h (interp R rO VV vadd vscale sb (fun k => w (nth k (gen_vector_split tp d dim n) 0)) e q).
+  Proof. exact (gen_vector_interp_split R rO rI radd rmul rsub ropp Rth VV VC vadd vscale vaddC vscaleC inj). Qed.
 End C19.
 
 Print Assumptions C19_vector_decode.
 Print Assumptions C19_vector_decode_bijection.
 Print Assumptions C19_bmat_blocks.
+Print Assumptions C19_composite_decode.
+Print Assumptions C19_split_indices_composite.
+Print Assumptions C19_split_indices_vector.
 Print Assumptions C19_coo_add_dense.
 Print Assumptions C19_asm_list_sum.
 Print Assumptions C19_tolocal_spec.
 Print Assumptions C19_fromlocal_tolocal.
 Print Assumptions C19_coo_dot.
+Print Assumptions C19_interp_split_composite.
+Print Assumptions C19_interp_split_vector.
 
 (* ---------- non-vacuity: a rectangular (Nu = 2, Nv = 3), 2-cell, non-symmetric instance over Z ---------- *)
 Definition exV := (Z * Z)%type.
@@ -99,3 +172,10 @@ Example C19_instance_tolocal :
   /\ wf_basis ex_ub /\ wf_basis ex_vb.
 Proof. split; [vm_compute; reflexivity|]. split; apply wf_basisb_sound; reflexivity. Qed.
 Print Assumptions C19_instance_tolocal.
+
+(* P2 x P1 x P0 on a triangle: layouts (nodal, edge, facet, interior) = (1,0,1,0), (1,0,0,0), (0,0,0,1); 3 nodes, 3 facets *)
+Example C19_instance_decode :
+  map (gen_deduce_bfun [3; 0; 3; 1] [[1; 0; 1; 0]; [1; 0; 0; 0]; [0; 0; 0; 1]]) (seq 0 10)
+  = [(0, 0); (1, 0); (0, 1); (1, 1); (0, 2); (1, 2); (0, 3); (0, 4); (0, 5); (2, 0)].
+Proof. vm_compute. reflexivity. Qed.
+Print Assumptions C19_instance_decode.
